@@ -286,7 +286,9 @@ def run(spec, ctx):
                 ctx.violation("finditer_async-differs:%s:%s" % (what, flavour), case, {"text": text, "sync": repr(s[0])[:500], "async": repr(a[0])[:500]})
             elif a[1] != s[1]:
                 ctx.violation("findall_async-differs:%s" % flavour, case, {"text": text, "sync": repr(s[1])[:500], "async": repr(a[1])[:500]})
-            elif len(ctx.samples) < 3 or r.random() < 0.002:
+            if flavour == "plain" and a[0] == s[0]:
+                ctx.remember("sync-vs-async", lambda text=text, doc=doc: (repr(sync_outcome(env, text, doc)), repr(asyncio.run(async_outcome(env, text, doc)))))
+            if len(ctx.samples) < 3 or r.random() < 0.002:
                 ctx.sample({"text": text, "flavour": flavour, "sync==async": s[0][0], "matches": len(s[0][1]) if s[0][0] == "ok" else s[0][1]})
     ctx.count("interleaving_signatures_distinct", len({s for s in signatures if s}))
     ctx.count("batches", (len(cases) + 7) // 8)
